@@ -344,12 +344,16 @@ theorem StreamOK.release {s : Streams} {g : Ghost} {x : Stream} (h : StreamOK s 
           x.recvFlow.available.val + cap + ((wrapSubU32 x.inFlightRecvData cap : Nat) : Int) ≤ _
         rw [hsub]; omega
     · intro hl
-      rcases h.bud hl with hcl | hr | hb
+      rcases h.bud hl with hcl | hb
       · exact .inl hcl
-      · exact .inr (.inl hr)
-      · right; right
-        show x.recvFlow.available.val + cap + ((wrapSubU32 x.inFlightRecvData cap : Nat) : Int) = _
-        rw [hsub]; omega
+      · right
+        show x.recvFlow.available.val + cap + ((wrapSubU32 x.inFlightRecvData cap : Nat) : Int) ≤ _ ∧
+          (_ → x.recvFlow.available.val + cap + ((wrapSubU32 x.inFlightRecvData cap : Nat) : Int) = _)
+        rw [hsub]
+        have h1 := hb.1
+        refine ⟨by omega, fun hr => ?_⟩
+        have h2 := hb.2 hr
+        omega
   · simp only [hin]
     have hclosed : x.state.isClosed = true := by
       rcases h.live with hcl | hl
@@ -384,12 +388,16 @@ theorem StreamOK.charge {s : Streams} {g : Ghost} {x : Stream} (h : StreamOK s g
         have := hok.1
         omega
     · intro hl
-      rcases h.bud hl with hcl | hr | hb
+      rcases h.bud hl with hcl | hb
       · exact .inl hcl
-      · exact .inr (.inl hr)
-      · right; right
-        show fl.available.val + ((wrapAddU32 x.inFlightRecvData sz : Nat) : Int) = _
-        rw [hadd, hok.2.2]; omega
+      · right
+        show fl.available.val + ((wrapAddU32 x.inFlightRecvData sz : Nat) : Int) ≤ _ ∧
+          (_ → fl.available.val + ((wrapAddU32 x.inFlightRecvData sz : Nat) : Int) = _)
+        rw [hadd, hok.2.2]
+        have h1 := hb.1
+        refine ⟨by omega, fun hr => ?_⟩
+        have h2 := hb.2 hr
+        omega
 
 /-- `in_flight_recv_data` of a closed stream, or of one whose `RecvStream` is gone, may go down
     without a stream-level credit (`clear_recv_buffer`, `release_closed_capacity`) -/
@@ -403,10 +411,15 @@ theorem StreamOK.drop {s : Streams} {g : Ghost} {x : Stream} (h : StreamOK s g x
       show x.recvFlow.available.val - x.recvFlow.windowSize.val + (i' : Int) ≤ _ ∧ x.recvFlow.available.val + (i' : Int) ≤ _
       omega
   · intro hl
-    rcases hx with rfl | hcl | hr
-    · exact h.bud hl
+    rcases h.bud hl with hcl | hb
     · exact .inl hcl
-    · exact .inr (.inl hr)
+    · rcases hx with rfl | hcl | hr
+      · exact .inr hb
+      · exact .inl hcl
+      · right
+        show x.recvFlow.available.val + (i' : Int) ≤ _ ∧ (x.isRecv = true → _)
+        have h1 := hb.1
+        exact ⟨by omega, fun hr' => by rw [hr] at hr'; cases hr'⟩
 
 -- ===================================================================== release_capacity
 
